@@ -251,6 +251,9 @@ def precedence_cases() -> list[dict[str, Any]]:
                             cases.append({"name": name, "layers": sorted(layers, key=ORDER.index), "block": block_kind, "local": local_kind, "dd": True})
                             # ... and the same subset served from a caching loader's cache (second and third request of the name)
                             cases.append({"name": name, "layers": sorted(layers, key=ORDER.index), "block": block_kind, "local": local_kind, "cached": True})
+                            # ... and found by the SECOND loader of a (caching) choice loader, loaded and rendered asynchronously
+                            for ck in ("choice", "caching-choice"):
+                                cases.append({"name": name, "layers": sorted(layers, key=ORDER.index), "block": block_kind, "local": local_kind, "choice": ck})
                         # the same subset with ONE layer binding the name to nil: a nil binding is a binding
                         if name == "v" and local_kind != "capture":
                             for nl in sorted(layers & {"block", "local", "arg", "matter", "tglobal", "eglobal"}, key=ORDER.index):
@@ -289,6 +292,7 @@ def check_precedence(case: dict[str, Any], res: ShardResult | None) -> list[tupl
     # after the block: direct probe, included probe, lambda probe, lambda probe in a RENDERED partial (isolated scope),
     # then a lambda whose parameter has the probed name and which is left early (has), then the direct probe again
     src = pre + body + probe + "{% include 'probe' %}" + lprobe + "{% render 'lprobe' %}{% assign zz = one | has: " + n + " => true %}" + probe
+    src += "{% assign zz = one | find: (" + n + ", zi) => true %}{% assign zz = one | find_index: (zj, " + n + ") => true %}" + probe
     # three isolated scopes deep, the outermost of them given a tag argument of the probed name: the innermost sees the
     # data the render started with, through a partial and through a macro defined there
     src += "{% render 'iso_a', " + n + ": 'TAGARG' %}"
@@ -298,18 +302,36 @@ def check_precedence(case: dict[str, Any], res: ShardResult | None) -> list[tupl
     tglobals = dd({n: val("tglobal", "TGLOBAL")}) if "tglobal" in layers else (dd({}) if case.get("dd") else None)
     tmpls = {"main": src, "probe": "⟪{{ " + n + " }}⟫", "lprobe": "⟪{{ one | map: q => " + n + " | first }}⟫", "iso_a": "{% render 'iso_b' %}",
              "iso_b": "{% render 'probe' %}{% macro mq %}⟪{{ " + n + " }}⟫{% endmacro %}{% call mq %}"}
-    loader = (CachingMatterLoader if case.get("cached") else MatterLoader)(tmpls, matter)
+    loader: Any = (CachingMatterLoader if case.get("cached") else MatterLoader)(tmpls, matter)
+    if case.get("choice"):
+        from liquid2 import CachingChoiceLoader
+        from liquid2 import ChoiceLoader
+        from liquid2 import DictLoader
+
+        loader = (CachingChoiceLoader if case["choice"] == "caching-choice" else ChoiceLoader)([DictLoader({"unrelated": "u"}), loader])
     env = impl.make_env(loader=loader, globals=eglobals)
     before = [snapshot(matter), snapshot(eglobals), snapshot(tglobals)]
     try:
-        t = env.get_template("main", globals=tglobals)
-        if case.get("cached"):
-            env.get_template("main", globals={"other": 1})
-            t = env.get_template("main", globals=tglobals)  # a cache hit, bound to this caller's globals
         args: dict[str, Any] = {"blockvals": [val("block", "BLOCK")]}
         if "arg" in layers:
             args[n] = val("arg", "ARG")
-        rendered = t.render(**args)
+        if case.get("choice"):
+            from mc.vloop import run_solo
+
+            async def go() -> str:
+                t_ = await env.get_template_async("main", globals=tglobals)
+                return await t_.render_async(**args)
+
+            kind_, val_ = run_solo(go())
+            if kind_ != "ok":
+                raise val_
+            rendered = val_
+        else:
+            t = env.get_template("main", globals=tglobals)
+            if case.get("cached"):
+                env.get_template("main", globals={"other": 1})
+                t = env.get_template("main", globals=tglobals)  # a cache hit, bound to this caller's globals
+            rendered = t.render(**args)
     except LiquidError as e:
         out.append((f"C10:precedence-render-fails:{type(e).__name__}", {**case, "source": src}, "renders", type(e).__name__))
         return out
@@ -332,9 +354,9 @@ def check_precedence(case: dict[str, Any], res: ShardResult | None) -> list[tupl
     want_inside = w(layers)
     want_after = w([l for l in layers if l != "block"])
     want_isolated = w([l for l in layers if l not in ("block", "local", "counter")])
-    wants = [want_inside, want_inside, want_after, want_after, want_after, want_isolated, want_after, want_isolated, want_isolated]
+    wants = [want_inside, want_inside, want_after, want_after, want_after, want_isolated, want_after, want_after, want_isolated, want_isolated]
     where = ["inside-block", "inside-block-partial", "after-block", "after-block-partial", "lambda-free-name", "lambda-free-name-in-rendered-partial", "after-early-exit-lambda",
-             "third-isolated-scope", "macro-in-second-isolated-scope"]
+             "after-early-exit-two-parameter-lambda", "third-isolated-scope", "macro-in-second-isolated-scope"]
     if res is not None:
         res.outcomes.add(h64([want_inside, want_after, want_isolated]))
     if len(vals) != len(wants):
@@ -441,7 +463,7 @@ def replay(case: dict[str, Any]) -> list[dict[str, Any]]:
         for sig, c, exp, obs in run_program(generic, None):
             res.violation(sig, case, exp, obs)
     else:
-        c = {k: case[k] for k in ("name", "layers", "block", "local", "nil_layer", "dd", "cached") if k in case}
+        c = {k: case[k] for k in ("name", "layers", "block", "local", "nil_layer", "dd", "cached", "choice") if k in case}
         for sig, cc, exp, obs in check_precedence(c, None):
             res.violation(sig, case, exp, obs)
     return res.violations
